@@ -14,6 +14,11 @@ git -C $base worktree remove --force $wt 2>/dev/null
 git -C $base worktree add --detach $wt HEAD >/dev/null 2>&1 || { echo "worktree failed"; exit 2; }
 git -C $wt apply $V/seeded/$name/patch.diff || { echo "patch does not apply"; exit 2; }
 out=$V/seeded/$name
+# failures of the unchanged tree (the recorded findings) are not hits of the seeded change
+if [ ! -f /tmp/seedrun/baseline.json ]; then
+  (cd $V && VERIF_REPO=$base VERIF_WORK=/tmp/seedrun/work_base python3 check.py --sweep ${SWEEP:-30000} | grep '^SWEEP-MAP' | sed 's/^SWEEP-MAP //' > /tmp/seedrun/baseline.json)
+fi
+export VERIF_SWEEP_BASELINE=/tmp/seedrun/baseline.json
 export VERIF_REPO=$wt VERIF_WORK=/tmp/seedrun/work_$name VERIF_WORKERS=${VERIF_WORKERS:-8}
 (cd $V && python3 check.py --sweep ${SWEEP:-30000} > $out/sweep.txt 2>$out/sweep.err)
 hits=$(grep '^SWEEP-HITS' $out/sweep.txt | sed 's/^SWEEP-HITS //' | python3 -c "import json,sys; l=json.load(sys.stdin); print('^('+'|'.join(l)+')$' if l else '')")
